@@ -478,7 +478,14 @@ def trace_odd_keys(state):
     return {"pos/x": state.pos * 1.0, "posx": state.pos * 2.0, "pos x": state.pos * 3.0, "pos:x": state.pos * 4.0}
 
 
+def trace_big(state):
+    """A large traced variable (320 kB per row): a few chains x iterations exceed any few-MiB allocation threshold."""
+    _cb("big", state)
+    return {"big": np.full(40000, float(np.ravel(state.pos)[0])), "pos": state.pos}
+
+
 TRACE_SETS = {
+    "big": [trace_big],
     "none": None,
     "empty": [],
     "pos": [trace_pos],
@@ -1105,7 +1112,7 @@ def random_scenario(rng, *, profile="mixed", run_seed=None):
         scn["third_transition"] = rng.random() < 0.4
         scn["colliding_stat_keys"] = scn["third_transition"] and rng.random() < 0.5
         scn["init"] = rng.choice(["dict", "state"])
-        scn["trace"] = rng.choice(["none", "empty", "pos", "two_overlap", "scalar", "tag", "three", "odd_keys", "override_dtype"])
+        scn["trace"] = rng.choice(["none", "empty", "pos", "two_overlap", "scalar", "tag", "three", "odd_keys", "override_dtype", "big"])
         scn["adapters"] = rng.choice([None, [], ["rwscale"], ["rwscale", "jitamount"], ["jitamount"]])
         if rng.random() < 0.3:
             scn["monitor_stats"] = {"rw": ["accepted"]}
@@ -1132,7 +1139,7 @@ def random_scenario(rng, *, profile="mixed", run_seed=None):
         if rng.random() < 0.2:
             scn["sampler_kwargs"]["mom_resample_coeff"] = rng.choice([0.3, 0.7, 1.0])
         scn["init"] = rng.choice(["array", "state", "state_mom"])
-        scn["trace"] = rng.choice(["default", "none", "empty", "pos", "two_overlap", "scalar", "three", "odd_keys", "override_dtype"] + (["tag"] if scn["init"] != "array" else []))
+        scn["trace"] = rng.choice(["default", "none", "empty", "pos", "two_overlap", "scalar", "three", "odd_keys", "override_dtype", "big"] + (["tag"] if scn["init"] != "array" else []))
         metric_ok = spec["kind"] in ("euclid", "gauss", "con", "gcon")
         dual_opts = {"type": "dual", "reducer": rng.choice(["arith", "geom", "min"])}
         if rng.random() < 0.5:
